@@ -419,6 +419,8 @@ pub fn c08_quick() -> Vec<(Scenario, bool)> {
     // relay set grows, then only shrinks, then becomes empty
     v.push((base("relays-grow-shrink", &m, &ad, &[], vec![relays("A", &["wss://r0.example", "wss://r1.example", "wss://r2.example"], 10).then(vec![relays("A", &["wss://r1.example"], 20).then(vec![relays("A", &[], 30)])])]), true));
     // image set, replaced, cleared
+    // the image fields change one at a time: key only, then nonce only, then hash only
+    v.push((base("image-fields-one-by-one", &m, &ad, &[], vec![act("A", ActKind::Image(Some(0x40)), 10).then(vec![act("A", ActKind::ImageParts(None, Some(0x77), None), 20).then(vec![act("B", ActKind::ImageParts(None, None, Some(0x78)), 30).then(vec![act("A", ActKind::ImageParts(Some(0x79), None, None), 40)])])])]), true));
     v.push((base("image-set-clear", &m, &ad, &[], vec![act("A", ActKind::Image(Some(0x40)), 10).then(vec![act("B", ActKind::Image(Some(0x50)), 20).then(vec![act("A", ActKind::Image(None), 30)])])]), true));
     // id rotation then more commits tagged with the new id, racing a rename tagged with the old one
     v.push((base("rotate-then-rename", &m, &ad, &[], vec![act("A", ActKind::RotateId(0xA1), 10).then(vec![rename("B", "after-rotate", 30)]), rename("B", "old-id-rename", 20)]), true));
